@@ -2,10 +2,18 @@
 // (catalog.go, pgdump.go, remote.go, detect.go:ListDatabases, main.go through the built pgread binary).
 package main
 
-import "verif/harness/core"
+import (
+	"os"
+
+	"verif/harness/core"
+)
 
 func main() {
 	core.TablesNamespace = "Cluster"
+	if len(os.Args) == 2 && os.Args[1] == "gocase-tables" {
+		writeGoCaseTables(os.Stdout)
+		return
+	}
 	defer cleanupBinary()
 	core.Main()
 }
